@@ -39,7 +39,7 @@ CHECKS = {
         parts=[
             dict(pkg="gate", run="^TestC09$",
                  quick=dict(shards=8, checks=700, timeout=240),
-                 thorough=dict(shards=16, checks=40000, timeout=1500)),
+                 thorough=dict(shards=16, checks=20000, timeout=1800)),
             dict(pkg="gate", run="^TestC09Timeouts$",
                  quick=dict(shards=1, checks=1, timeout=240),
                  thorough=dict(shards=4, checks=1, timeout=1500)),
